@@ -20,6 +20,7 @@ import (
 // automatic N amounts never negative.
 
 type c16Spec struct {
+	Split  int      `json:"split,omitempty"` // the rotation file lists the field in two blocks (another field in between), the second block begins with entry Split
 	Rot    int      `json:"rot"`
 	Table  int      `json:"table"`
 	Switch int      `json:"switch"` // bit 0 AutoSowingHarvest, 1 AutoHarvest, 2 AutoIrrigation, 3 AutoFertilization
@@ -155,6 +156,16 @@ func c16Specs(tier string, seed int) []c16Spec {
 			}
 		}
 	}
+	// rotation files in which the field's entries are not contiguous (exported by period, or field by field in turns)
+	for r := 0; r < len(c16Rots); r++ {
+		for _, t := range []int{0, 2} {
+			for _, sw := range []int{0, 3, 15} {
+				for split := 2; split <= len(c16Rots[r]); split++ {
+					out = append(out, c16Spec{Rot: r, Table: t, Switch: sw, Alpha: alpha[:2], D: 1, Split: split})
+				}
+			}
+		}
+	}
 	return out
 }
 
@@ -223,6 +234,7 @@ func c16Run(raw json.RawMessage, c *mc.Ctx) {
 	table.WriteString(c16Row(c16Crop{"WW", "", "", "2009", "2510", "1508", 0}, 0) + "\n")
 	p.Rotation = append(p.Rotation, proj.CropEntry{Crop: "WW", Sow: "2008-10-01", Harvest: "2009-07-30"})
 	p.Automan = table.String()
+	p.RotSplit = sp.Split // (entry 0 is the initial crop: the second block begins with the crop number Split of the rotation)
 	bs := func(v bool) string { return map[bool]string{true: "1", false: "0"}[v] }
 	p.Config["AutoSowingHarvest"], p.Config["AutoHarvest"], p.Config["AutoIrrigation"], p.Config["AutoFertilization"] = bs(autoSow), bs(autoHar), bs(autoIrr), bs(autoFert)
 	p.Config["ManagementEvents"] = "1"
